@@ -30,20 +30,31 @@ func vInReducedForm(x *Bignum256) bool {
 	return ok && x[LimbSize-1] < 1<<vTopBits
 }
 
-// C19: reduce(r) = r - L if r >= L else r, for every reduced-form limb vector with value < 2L
-// (the precondition its callers establish).
+// input form of reduce inside barrettReduce: full limbs below 2^BitsPerLimb, top limb below 2^(vTopBits+8)
+// (the Barrett remainder is taken modulo 2^264)
+func vInBarrettForm(x *Bignum256) bool {
+	ok := true
+	for i := 0; i < LimbSize-1; i++ {
+		ok = ok && x[i] < 1<<BitsPerLimb
+	}
+	return ok && x[LimbSize-1] < 1<<(vTopBits+8)
+}
+
+// C19: reduce(r) = r - L if r >= L else r, for every limb vector in Barrett form (any value < 2^264)
 func vh_C19_reduce() {
 	r := vFreshScalar("r")
-	vAssume(vInReducedForm(&r))
+	vAssume(vInBarrettForm(&r))
 	L := vZc(vL)
 	v := vVal(&r)
-	vAssume(v.Lt(L.Add(L)))
 	reduce(&r)
 	vReach("reduce returned")
 	want := vZite(v.Lt(L), v, v.Sub(L))
 	vAssert(vVal(&r).Eq(want), "reduce = conditional subtraction of L")
-	vAssert(vInReducedForm(&r), "output limbs in reduced form")
-	vAssert(vVal(&r).Lt(L), "output < L")
+	vAssert(vInBarrettForm(&r), "output limbs in Barrett form")
+	if vBool("below2L") {
+		vAssume(v.Lt(L.Add(L)))
+		vAssert(vVal(&r).Lt(L) && vInReducedForm(&r), "input < 2L => output < L in reduced form")
+	}
 }
 
 // C19: Add(x, y) = (x + y) mod L for x, y < L in reduced form
@@ -150,3 +161,60 @@ func vh_C19_ContractWindow4_telescope() {
 }
 
 func vI2(k int) string { return string(rune('A'+k/26)) + string(rune('a'+k%26)) }
+
+// ---------------------------------------------------------------------------
+// contract of reduce (proved by vh_C19_reduce), used when the callers are lifted to integer arithmetic
+
+var vReduceCalls int
+
+func vc_reduce(r *Bignum256) {
+	vAssert(vInBarrettForm(r), "reduce precondition: limbs in Barrett form")
+	L := vZc(vL)
+	v := vVal(r)
+	vReduceCalls++
+	out := vFreshScalar("red" + string(rune('a'+vReduceCalls)) + "_")
+	vAssume(vInBarrettForm(&out))
+	vAssume(vVal(&out).Eq(vZite(v.Lt(L), v, v.Sub(L))))
+	*r = out
+}
+
+// C19: Expand of a 64-byte string is the exact residue of its little-endian value, canonical
+func vh_C19_Expand64() {
+	if vTier() == 0 {
+		return // monolithic form: thorough tier only (staged proof: see vh_C19_barrett_*)
+	}
+	vReplace(reduce, vc_reduce)
+	b := vBytes("b", 64)
+	var s Bignum256
+	Expand(&s, b)
+	vReach("Expand(64 bytes) returned")
+	L := vZc(vL)
+	vAssert(vVal(&s).Eq(vZle(b).Mod(L)), "Expand(64 bytes) = value mod L")
+	vAssert(vInReducedForm(&s), "output limbs in reduced form")
+}
+
+func vh_C19_Expand32() {
+	vReplace(reduce, vc_reduce)
+	b := vBytes("b", 32)
+	var s Bignum256
+	Expand(&s, b)
+	vReach("Expand(32 bytes) returned")
+	L := vZc(vL)
+	vAssert(vVal(&s).Eq(vZle(b).Mod(L)), "Expand(32 bytes) = value mod L")
+	vAssert(vInReducedForm(&s), "output limbs in reduced form")
+}
+
+func vh_C19_Mul() {
+	if vTier() == 0 {
+		return // monolithic form: thorough tier only (staged proof: see vh_C19_barrett_*)
+	}
+	vReplace(reduce, vc_reduce)
+	x, y := vFreshScalar("x"), vFreshScalar("y")
+	vAssume(vInReducedForm(&x) && vInReducedForm(&y))
+	L := vZc(vL)
+	var r Bignum256
+	Mul(&r, &x, &y)
+	vReach("Mul returned")
+	vAssert(vVal(&r).Eq(vVal(&x).Mul(vVal(&y)).Mod(L)), "Mul = (x * y) mod L")
+	vAssert(vInReducedForm(&r), "output limbs in reduced form")
+}
